@@ -17,6 +17,12 @@
   Part 3 (`*_naming`, `*_member_lookup`, `fragment_*`): class naming (`helper/naming.py`), the by-name member lookup of enums
   and the regex post-processing of rendered fragments (`PatternParser`).
 
+  Part 4 (`regex_*`, `site_table_*`): the regular expressions of `PatternParser` / `CppViewHelper` and the table of comparison sites
+  are GENERATED from the source on every run (translate/gen_c08_regex.py, translate/gen_c08_sites.py: Generated/C08Regex.lean,
+  Generated/C08Sites.lean; a new, changed or vanished site or an unknown regex opcode makes the translator fail = broken tie).
+  The hand-written table below is the audit the generated table records (132 sites incl. cpp_view_helper.py and
+  syntax/node/definition/*.py; verdicts in translate/c08_sites_audited.json).
+
   ## Every place where a string that can contain a user identifier is compared other than by `==` on whole names
   (grep of finder.py, dsn/*.py, node.py, statement_compound.py, primary.py, naming.py, py2cpp.py for `startswith(`, `endswith(`,
   ` in `, `.find(`, `.replace(`, `.split(`, `.count(`, `re.`; lines of HEAD 2d32958)
@@ -53,12 +59,16 @@
   | py2cpp.py:1758 DictIteratorPattern `(.+)(->|\.)(\w+)\(\)$` | last operator + identifier + `()` | yes: `fragment_dict_iterator` |
   | py2cpp.py:1759 DeclClassVarNamePattern `\s+([\w\d_]+)\s+=` | first `ws word ws =` | yes for `<type> <name> = …` with a blank-free type: `fragment_class_var_name`; other shapes correspondence only |
   | py2cpp.py:1760,1761 CVarRelaySubPattern / CVarToSubPattern `(->|::|\.)(on|raw|…)\(\)$` | operator + WHOLE word + `()` | yes: `fragment_cvar_suffix` (stripped iff the method name IS the word; `xon()`, `draw()` untouched) |
+  | cpp_view_helper.py:82,107 `var_type.startswith('const ')` | the C++ qualifier WITH its blank (since 448468e; before: bare `startswith('const')`, class `constant` was taken for a const type) | yes: a rendered type name contains no blank |
   | py2cpp.py:1757 ListSortKeyPattern, :1793,1858,1874 BlockParser calls | lambda text / bracket blocks | search only (real-code equivariance); BlockParser is property C18 |
 -/
 import Tranp.Lemmas.Scope
 import Tranp.Lemmas.ScopeStr
 import Tranp.Lemmas.Naming
 import Tranp.Lemmas.Fragment
+import Tranp.Lemmas.Regex
+import Tranp.Generated.C08Regex
+import Tranp.Generated.C08Sites
 
 namespace Tranp.C08
 open Tranp Tranp.Scope
@@ -455,6 +465,66 @@ example :
     isInitializerCall ['A','(','1',')','.','d','(',')'] ['A'] = some false ∧
     isInitializerCall ['A','B','(','1',')'] ['A'] = some false ∧
     isInitializerCall ['A','(','B','(','1',')',')'] ['A'] = some true := by
+  decide +kernel
+
+
+/-! ## Part 4: generated regular expressions and the generated site table -/
+
+open Tranp.Regex in
+/-- **regex_identifier_closed**: in every pattern tranp applies to rendered C++ text (as translated from the source on this
+    run), every character test other than a fixed literal treats all identifier characters `[A-Za-z0-9_]` alike — a set
+    contains all of them or none (`[\w\d]`, `[^;]`, `\s`, …; `[a-zA-Z\d]` would not), and no `[^c]` excludes one. -/
+theorem regex_identifier_closed : ∀ nr ∈ Generated.C08Regex.all, nr.2.identClosed = true := by
+  decide +kernel
+
+open Tranp.Regex in
+/-- What closedness buys: matching a generated pattern gives the same result (same end offset, same group spans) on a text and
+    on the same text with its identifier characters permuted by any `σ` that fixes the identifier characters the pattern spells
+    out (`__init__`, `this`, `return`, `on`, …) — for ALL texts. (Spelling-independence; a renaming that also changes the LENGTH
+    of a name is covered by `fragment_*` for the modelled helpers and by the search.) -/
+theorem regex_charmap_invariant (σ : Char → Char) (hσ : IdentMap σ) (name : String) (r : Re)
+    (hr : (name, r) ∈ Generated.C08Regex.all) (hlit : ∀ x ∈ r.literalWordChars, σ x = x) (s : Str) :
+    fullmatch r (s.map σ) = fullmatch r s :=
+  fullmatch_map σ hσ r (Re.respects_of_closed hσ r (regex_identifier_closed (name, r) hr) hlit) s
+
+/-- non-vacuity: swapping `a` and `b` is an identifier map; `SuperCall` spells out `_ i n t` only -/
+def swapAB : Char → Char := fun c => if c = 'a' then 'b' else if c = 'b' then 'a' else c
+
+example : Regex.IdentMap swapAB ∧
+    (∀ x ∈ Generated.C08Regex.CppViewHelper_SuperInitializer_SuperCall.literalWordChars, swapAB x = x) ∧
+    ("CppViewHelper.SuperInitializer.SuperCall", Generated.C08Regex.CppViewHelper_SuperInitializer_SuperCall) ∈ Generated.C08Regex.all := by
+  refine ⟨⟨?_, ?_, ?_⟩, by decide +kernel, by decide +kernel⟩
+  · intro c hc; unfold swapAB; split
+    · decide
+    · split
+      · decide
+      · exact hc
+  · intro c hc; unfold swapAB
+    have ha : c ≠ 'a' := by intro e; subst e; revert hc; decide
+    have hb : c ≠ 'b' := by intro e; subst e; revert hc; decide
+    simp [ha, hb]
+  · intro x y h
+    unfold swapAB at h
+    by_cases hxa : x = 'a' <;> by_cases hxb : x = 'b' <;> by_cases hya : y = 'a' <;> by_cases hyb : y = 'b' <;> simp_all <;> first | exact absurd h.symm hyb | exact absurd h.symm hya
+
+/-- REGRESSION for a seeded mutation: the class `[a-zA-Z\d]` (no underscore) is not identifier-closed. -/
+example : (Regex.CharSet.mk false [.range 'a' 'z', .range 'A' 'Z', .digit]).identClosed = false := by decide +kernel
+
+open Tranp.Generated.C08Sites in
+/-- The generated site table (every string-inspecting call / `in` / `re` use of the anchored files, cpp_view_helper.py and
+    syntax/node/definition/*.py, with the verdict of the audit) contains NO defective site: every site has a verdict that does
+    not depend on the spelling of user identifiers, and none is unaudited (the translator refuses unknown sites). -/
+theorem site_table_no_defect : ∀ s ∈ sites, s.verdict ≠ .defect := by
+  decide +kernel
+
+open Tranp.Generated.C08Sites in
+/-- REGRESSION (fixed 448468e): the table as it was before the repair — the two `startswith('const')` sites of
+    cpp_view_helper.py carried the verdict `defect`, and the statement above is false for such a table. -/
+example :
+    let old : List Site := [
+      ⟨"rogw/tranp/implements/cpp/view/cpp_view_helper.py", "CppViewHelper.Param.var_type_origin", "str.startswith", "self.var_type.startswith('const')", .defect⟩,
+      ⟨"rogw/tranp/implements/cpp/view/cpp_view_helper.py", "CppViewHelper.VarType.annotated", "str.startswith", "var_type.startswith('const')", .defect⟩]
+    ¬ ∀ s ∈ old, s.verdict ≠ .defect := by
   decide +kernel
 
 end Tranp.C08
